@@ -7,6 +7,9 @@
    mode "existing": the storage holds the id of an on-chain big_map with contents `chain`;
    mode "fresh":    the storage holds a literal (its bindings start in the local layer),
                     nothing is on chain.
+   mode "copy":     the big_map arrives by id in the parameter (contents `chain` belong to another
+                    owner): the contract works on a temporary copy and stores it, so the diff must
+                    say "copy <source>" under a new id and the source's contents stay what they were.
    At the end the execution emits a lazy storage diff; the property is stated on the final
    dictionary `flat`: every observation equals the dictionary's answer, and
    Apply(diff, chain) = flat  (checked on the implementation's diff by the harness). *)
@@ -49,6 +52,11 @@ ObsOK == obs = want
 \* the diff the local layer stands for, applied to the chain contents, is the dictionary
 DiffOf(k) == IF local[k] = 0 THEN "keep" ELSE IF local[k] = -1 THEN "remove" ELSE "set"
 ApplyDiff == \A k \in Keys : flat[k] = (CASE DiffOf(k) = "keep" -> chain[k] [] DiffOf(k) = "remove" -> 0 [] OTHER -> local[k])
+\* what the emitted diff must say about its origin (compared with the implementation's diff by the harness)
+DiffAction == CASE mode = "existing" -> "update" [] mode = "fresh" -> "alloc" [] OTHER -> "copy"
+DiffNeedsSource == mode = "copy"
+DiffKeepsId == mode = "existing"           \* only an in-place update keeps the on-chain id
+ModeOK == mode \in {"existing", "fresh", "copy"} /\ (DiffNeedsSource => ~DiffKeepsId)
 FreshHasNothingOnChain == mode = "fresh" => \A k \in Keys : chain[k] = 0
-Emit == PrintT(<<"OUT", mode, chain, lit, hist, obs, flat>>)
+Emit == PrintT(<<"OUT", mode, chain, lit, hist, obs, flat, <<DiffAction, DiffNeedsSource, DiffKeepsId>> >>)
 =============================================================================
